@@ -33,6 +33,8 @@ pub struct VState {
     pub rng: Rng,
     pub polls: u64,
     pub tie_breaks: u64,
+    /// sleeps that completed without virtual time advancing, within the current poll
+    pub immediate_sleeps: u32,
 }
 
 #[derive(Clone)]
@@ -69,6 +71,7 @@ impl VExec {
             rng,
             polls: 0,
             tie_breaks: 0,
+            immediate_sleeps: 0,
         })))
     }
 
@@ -101,6 +104,7 @@ impl VExec {
         let fut = {
             let mut g = self.lock();
             g.polls += 1;
+            g.immediate_sleeps = 0;
             g.current_task = Some(t);
             g.tasks[t].take()
         };
@@ -172,6 +176,17 @@ impl Future for VSleep {
     fn poll(mut self: Pin<&mut Self>, _cx: &mut Context<'_>) -> Poll<()> {
         let mut g = self.exec.lock();
         if g.now >= self.deadline {
+            if !self.registered {
+                // a sleep that is over before it was ever pending: no virtual time elapsed. One task
+                // poll legitimately sees none of these (it wakes from one sleep and starts the next).
+                g.immediate_sleeps += 1;
+                if g.immediate_sleeps > 64 {
+                    drop(g);
+                    std::panic::panic_any(crate::seq::HarnessPanic(
+                        "VCLOCK: a task completed 64 sleeps in a row without virtual time advancing (zero-length period?)".into(),
+                    ));
+                }
+            }
             return Poll::Ready(());
         }
         if !self.registered {
